@@ -37,7 +37,7 @@ check, `git checkout -- .`) or its parallel equivalent `tools/eval_par.py`
 demo_test.go.txt | demo/, meta.json}`; `tools/refresh_seeds.py` re-evaluates
 all of them against the current checks and rewrites the "rules" column.
 
-%d seeds in %d rounds of 60 (3 per property and round). Every round is an
+%d seeds in %d rounds of up to 60 (3 per property and round; the ninth, time-boxed, delivered 52). Every round is an
 out-of-sample measurement of the checks as strengthened after the previous one.
 
 * **Round 1, first evaluation (before any strengthening): the property's own
